@@ -7,11 +7,13 @@ mod alloc; mod rng; mod tok; mod resp; mod srv;
 mod c01;
 mod c02;
 mod c03;
+mod c04;
 mod c05;
 mod c06;
 mod c07;
 mod c08;
 mod c11;
+mod c12;
 mod c14;
 mod c15;
 mod c16;
@@ -35,11 +37,13 @@ fn gen(prop: &str, seed: u64, n: usize, tier: &str) -> Option<Vec<Case>> {
         "C01" => c01::gen(seed, n, tier),
         "C02" => c02::gen(seed, n, tier),
         "C03" => c03::gen(seed, n, tier),
+        "C04" => c04::gen(seed, n, tier),
         "C05" => c05::gen(seed, n, tier),
         "C06" => c06::gen(seed, n, tier),
         "C07" => c07::gen(seed, n, tier),
         "C08" => c08::gen(seed, n, tier),
         "C11" => c11::gen(seed, n, tier),
+        "C12" => c12::gen(seed, n, tier),
         "C14" => c14::gen(seed, n, tier),
         "C15" => c15::gen(seed, n, tier),
         "C16" => c16::gen(seed, n, tier),
@@ -55,11 +59,13 @@ fn run(prop: &str, c: &Case) -> Option<Case> {
         "C01" => c01::run(c),
         "C02" => c02::run(c),
         "C03" => c03::run(c),
+        "C04" => c04::run(c),
         "C05" => c05::run(c),
         "C06" => c06::run(c),
         "C07" => c07::run(c),
         "C08" => c08::run(c),
         "C11" => c11::run(c),
+        "C12" => c12::run(c),
         "C14" => c14::run(c),
         "C15" => c15::run(c),
         "C16" => c16::run(c),
@@ -74,8 +80,10 @@ fn judge(prop: &str, c: &Case) -> Vec<String> {
     match prop {
         "C02" => c02::judge(c, &c.outs),
         "C03" => c03::judge(c, &c.outs),
+        "C04" => c04::judge(c, &c.outs),
         "C06" => c06::judge(c, &c.outs),
         "C11" => c11::judge(c, &c.outs),
+        "C12" => c12::judge(c, &c.outs),
         "C14" => c14::judge(c, &c.outs),
         "C15" => c15::judge(c, &c.outs),
         "C16" => c16::judge(c, &c.outs),
@@ -110,6 +118,11 @@ fn main() {
         "judge" => {
             let cases = tok::read_cases(io::stdin().lock());
             for c in &cases { for f in judge(prop, c) { writeln!(w, "{}", f).unwrap(); } }
+        }
+        "tally" => {   // developer aid: command x outcome-class tally of run cases
+            let cases = tok::read_cases(io::stdin().lock());
+            let lines = match prop { "C04" => c04::tally(&cases), _ => vec![] };
+            for l in lines { writeln!(w, "{}", l).unwrap(); }
         }
         _ => { eprintln!("bad mode"); std::process::exit(2); }
     }
